@@ -23,7 +23,9 @@ LeavesOf(fam) ==
     [] fam = "object" -> {TString, TNumber, TNull, LS("x"), LN("1"), Uni(<<TString, TNull>>),
                           \* a declared property whose type keeps more than the index signature's value type does
                           Obj(<<Prop("o", Obj(<<Prop("x", TNumber, FALSE), Prop("y", TNumber, FALSE)>>, <<>>), FALSE)>>,
-                              <<Ix(TString, Obj(<<Prop("x", TNumber, FALSE)>>, <<>>))>>)}
+                              <<Ix(TString, Obj(<<Prop("x", TNumber, FALSE)>>, <<>>))>>),
+                          \* the empty object type, alone and as the value type of an index signature (digest: where an object ends)
+                          Obj(<<>>, <<>>), Obj(<<>>, <<Ix(TString, Obj(<<>>, <<>>))>>)}
     [] fam = "tuple"  -> {TString, TNumber, LS("x"), Uni(<<TString, TUndef>>)}
     [] fam = "union"  -> {TString, LS("a"), LS("b"), LN("1"), LB(TRUE), TNull,
                           Obj(<<Prop("k", LS("x"), FALSE), Prop("a", TString, FALSE)>>, <<>>),
@@ -68,7 +70,7 @@ LeavesOf(fam) ==
 
 PoolOf(fam) ==
   CASE fam = "prim"   -> {TString, TNumber, TNull, LS("a"), LN("1")}
-    [] fam = "object" -> {TString, TNumber, Obj(<<Prop("b", TNumber, FALSE)>>, <<>>), Obj(<<Prop("a", TString, TRUE)>>, <<>>)}
+    [] fam = "object" -> {TString, TNumber, Obj(<<Prop("b", TNumber, FALSE)>>, <<>>), Obj(<<Prop("a", TString, TRUE)>>, <<>>), Obj(<<>>, <<>>)}
     [] fam = "tuple"  -> {TString, TNumber}
     [] fam = "union"  -> {TString, LS("b"), TNull, Obj(<<Prop("k", LS("z"), FALSE)>>, <<>>),
                           Obj(<<Prop("k", LS("constructor"), FALSE), Prop("c", TString, TRUE)>>, <<>>),
@@ -95,7 +97,7 @@ Unary ==
 
 Binary ==
   CASE Family = "prim"   -> {"union", "inter"}
-    [] Family = "object" -> {"obj2", "obj2opt", "union", "inter", "indexMixed"}
+    [] Family = "object" -> {"obj2", "obj2opt", "union", "inter", "indexMixed", "indexOver"}
     [] Family = "tuple"  -> {"tup2a", "tup2b", "tupRest1", "union"}
     [] Family = "union"  -> {"union", "inter"}
     [] Family = "tpl"    -> {"union"}
@@ -131,6 +133,7 @@ ApplyBinary(a, t, x) ==
     [] a = "obj2"       -> Obj(<<Prop("a", t, FALSE), Prop("b", x, FALSE)>>, <<>>)
     [] a = "obj2opt"    -> Obj(<<Prop("a", t, TRUE), Prop("b", x, FALSE)>>, <<>>)
     [] a = "indexMixed" -> Obj(<<Prop("a", x, FALSE)>>, <<Ix(TString, Uni(<<x, t>>))>>)
+    [] a = "indexOver"  -> Obj(<<Prop("a", t, FALSE)>>, <<Ix(TString, x)>>)
     [] a = "tup2a"      -> Tup(<<t, x>>, <<>>)
     [] a = "tup2b"      -> Tup(<<x, t>>, <<>>)
     [] a = "tupRest1"   -> Tup(<<x>>, <<t>>)
